@@ -19,7 +19,7 @@ from collections import OrderedDict
 import glom
 import glom.core as gcore
 import glom.mutation as gmut
-from glom import Glommer, Assign, Delete, T, Path
+from glom import Glommer, Assign, Delete, T, Path, Iter
 from glom.core import (TargetRegistry, UnregisteredTarget, PathAccessError, PathAssignError,
                        _AbstractIterable, _ObjStyleKeys, _DEFAULT_SCOPE)
 
@@ -53,6 +53,7 @@ BUILTIN_BY_OP = {'get': ['getattr', 'getitem', 'seqitem'], 'iterate': ['iter'], 
 PROBED_OPS = ('keys', 'cauto', 'cplain')     # observed through a custom specifier that returns the handler itself
 FALSE_H = {'o': 'False', 'n': 0}
 CALLS = []        # (type name, serial, op) of every user handler that ran
+ITER_ALL = Iter().all()     # one streaming spec object, reused for every 'iterate' observation of the process
 ON_CALL = []      # at most one callable, run (once) from inside the next user handler that is called (re-entrancy)
 PULLS = []        # one entry per item pulled from a generator target
 
@@ -440,11 +441,23 @@ class Env:
         return self.specs[op]
 
     def observe(self, r, op, tname):
-        """one public-API call that needs the `op` handler for an instance of tname -> signature"""
+        """the public-API call(s) that need the `op` handler for an instance of tname -> signature.  'iterate' is asked
+        for twice: through the list spec [T] and through ONE Iter() spec object shared by all behaviours of the process
+        (ITER_ALL); the second call finds the memo filled by the first, so the machine makes the same step; the two
+        answers must agree, a deviating second answer is the one reported"""
+        pending = bool(ON_CALL)
+        sig = self._observe(r, op, tname, self._spec(op))
+        fired = pending and not ON_CALL       # a registration was made from inside the handler: the next lookup is a new step
+        if op == 'iterate' and not fired:
+            sig2 = self._observe(r, op, tname, ITER_ALL)
+            if sig2 != sig:
+                return sig2
+        return sig
+
+    def _observe(self, r, op, tname, spec):
         obj = self.u.make(tname)
         del CALLS[:]
         del PULLS[:]
-        spec = self._spec(op)
         run = glom.glom if r == 'default' else self.g[r].glom
         try:
             res = run(obj, spec)
